@@ -104,6 +104,12 @@ impl Arena {
     /// If a term with the same ID exists already, it does nothing
     pub fn insert(&mut self, term: HpoTermInternal) {
         let id = term.id().to_usize();
+        #[cfg(hpo_verif)]
+        crate::verif_hooks::emit(crate::verif_hooks::Event::ArenaInsert {
+            id: crate::annotations::AnnotationId::as_u32(term.id()),
+            present: self.ids.get(id).is_some_and(|slot| *slot != 0),
+            len: self.terms.len() - 1,
+        });
         if self.ids[id] == 0 {
             let idx = self.terms.len();
             self.terms.push(term);
